@@ -62,6 +62,10 @@ LiftTheorem == (Done /\ n >= 2 /\ \A p \in att : p[1] # n) =>
    /\ LiftedFam(af, 1..(n - 1), "CO") = CO(af)
    /\ LiftedFam(af, 1..(n - 1), "ST") = ST(af)
 
+ReductTheorem == Done =>
+   /\ GroundedFast(af) = Grounded(af)
+   /\ \A s \in ReductSems : FamByReduct(af, s) = Fam(af, s)
+
 MetaFast == Done => FastEqualsTextbook(af)
 
 Export == Done => PrintT(<<"REF", ToJson([n |-> n, att |-> SetToSeq(att)])>>)
